@@ -25,7 +25,11 @@ def generate(rng, tier, n):
     cid = 0
     while len(cases) < n:
         c0 = rng.random()
-        if c0 < 0.15:
+        if c0 < 0.06:
+            # a decision behind a chance branch of probability 1e-17 .. 1e-30 whose payoffs are of the order 1/probability
+            from .c01 import jackpot_tree
+            t, st = jackpot_tree(rng)
+        elif c0 < 0.15:
             t, st = blind_guess_tree(rng)
         elif c0 < 0.4:
             k = rng.choice([2, 3, 4])
